@@ -35,8 +35,11 @@ type evalDom struct {
 }
 
 func isAnyType(t types.Type) bool {
+	if _, isParam := types.Unalias(t).(*types.TypeParam); isParam {
+		return false
+	}
 	i, ok := t.Underlying().(*types.Interface)
-	return ok && i.NumMethods() == 0
+	return ok && i.Empty()
 }
 
 func newEvalDom(p *Program) *evalDom {
@@ -108,13 +111,33 @@ func newEvalDom(p *Program) *evalDom {
 	// wrappers: loop-free functions that call the dispatcher directly
 	d.wrapper = map[*ssa.Function]bool{}
 	for _, fn := range all {
-		if fn == d.evalFn || len(loopsOf(fn)) > 0 {
-			continue
+		if fn == d.evalFn || len(loopsOf(fn)) > 0 || len(fn.AnonFuncs) > 0 {
+			continue // loops, closures and range-over-func bodies are real helpers, not wrappers
 		}
-		for _, c := range staticCallees(fn) {
-			if c == d.evalFn {
-				d.wrapper[fn] = true
+		// a wrapper only forwards: every recursive evaluation in it is of a node it received, against a current value
+		// and a scope it received (parameters), never against something it computed
+		n, thin := 0, true
+		for _, b := range fn.Blocks {
+			for _, in := range b.Instrs {
+				c, ok := in.(ssa.CallInstruction)
+				if !ok || c.Common().StaticCallee() != d.evalFn {
+					continue
+				}
+				n++
+				args := c.Common().Args
+				for _, idx := range []int{d.curIdx, d.scopeIdx} {
+					if idx >= len(args) {
+						thin = false
+						continue
+					}
+					if _, isParam := args[idx].(*ssa.Parameter); !isParam {
+						thin = false
+					}
+				}
 			}
+		}
+		if n > 0 && thin {
+			d.wrapper[fn] = true
 		}
 	}
 	return d
@@ -257,7 +280,11 @@ func (d *evalDom) Call(e *Engine, st *State, site ssa.CallInstruction, callee *s
 		err := avSym{id: e.fresh(), tag: "eval-err", nonNil: true}
 		return []CallOut{{St: st, Res: []AV{val, avNil{}}}, {St: bad, Res: []AV{avNil{}, err}}}, true
 	}
-	if callee.Pkg != d.pkg {
+	cpkg := callee.Pkg
+	if cpkg == nil && callee.Origin() != nil {
+		cpkg = callee.Origin().Pkg // an instantiation of a generic helper of the package
+	}
+	if cpkg != d.pkg {
 		return nil, false
 	}
 	// scope methods
